@@ -50,6 +50,14 @@ Theorem C17_restart : forall s, handle s Restart = (s, Resp 200 BNone).
 Proof. reflexivity. Qed.
 Print Assumptions C17_restart.
 
+(* ... at any points of a history and any number of times: the final state and every response to the other requests are
+   those of the history without the restarts *)
+Theorem C17_restarts_transparent : forall rqs s,
+  fst (run s rqs) = fst (run s (no_restarts rqs))
+  /\ map snd (filter (fun p => negb (is_restart (fst p))) (combine rqs (snd (run s rqs)))) = snd (run s (no_restarts rqs)).
+Proof. exact restarts_transparent. Qed.
+Print Assumptions C17_restarts_transparent.
+
 (* the recorded deviation: dropping an unknown collection is answered 200, not 404 *)
 Example C17_drop_unknown : snd (handle [] (Drop 7)) = Resp 200 BNone /\ unknown_collection [] (Drop 7) = true.
 Proof. split; reflexivity. Qed.
